@@ -761,9 +761,31 @@ def _unbounded_evaluation(f) -> bool:
     return any(isinstance(n, ast.BinOp) and isinstance(n.op, (ast.Pow, ast.LShift, ast.Mult)) for n in ast.walk(tree))
 
 
-SIGS = {"boolop_constant_fold": _boolop_constant_fold, "unbounded_evaluation": _unbounded_evaluation}
+def _boolop_truth_context_drops_call(f) -> bool:
+    """F15-11 (what is left of F15-6 after repair e3d6231): where only the TRUTH of an and/or is observed (if / while
+    test, operand of not, ...) the BoolOp branch still folds `a and <falsy const>` to False although `a` contains a
+    call -- the call is no longer made.  Structural predicate: that rule (or the whole pipeline), and the program has
+    a BoolOp with a closed (name/call/attribute-free) operand AND an operand containing a call."""
+    if f["rule"] not in ("simplify_boolean_expressions", "format_code"):
+        return False
+    try:
+        tree = ast.parse(f["program"])
+    except SyntaxError:
+        return False
+
+    def closed(n):
+        return not any(isinstance(x, (ast.Name, ast.Call, ast.Attribute)) for x in ast.walk(n))
+
+    def has_call(n):
+        return any(isinstance(x, ast.Call) for x in ast.walk(n))
+    return any(isinstance(n, ast.BoolOp) and any(closed(v) for v in n.values) and any(has_call(v) for v in n.values)
+               for n in ast.walk(tree))
+
+
+SIGS = {"boolop_constant_fold": _boolop_constant_fold, "unbounded_evaluation": _unbounded_evaluation,
+        "boolop_truth_context_drops_call": _boolop_truth_context_drops_call}
 WITNESS = {
-    "F15-6": ("simplify_boolean_expressions", PROGRAM_PRELUDE + "print(f() and 0)\n"),
+    "F15-11": ("simplify_boolean_expressions", PROGRAM_PRELUDE + "if f() and 0:\n    print(1)\nprint(3)\n"),
     "F15-7": ("remove_dead_ifs", "if 3 ** 10 ** 8:\n    print(1)\n"),
 }
 
